@@ -496,3 +496,40 @@ def fmtblank(repo):
     res.samples = [f"{tests} tests on row columns; none strips token characters"]
     res.analysed = [G.FORMAT_EMB]
     return res
+
+
+def fmtparts(repo):
+    """R-FMTPARTS (C11): a formatted block has three parts -- prefix rows (comments before it), a header row and body rows
+    (documentation, attributes, inline type bodies).  Wherever format_emb.py rebuilds a `_Block` from another block's
+    parts and indents one of them (`_indent_row(s)(old.part)`), it indents all of them: a body left at its header's
+    indentation loses the Indent token in front of it, the formatted text no longer parses (or parses differently) and
+    emboss-format refuses the file.  Only fields nested in an `if` or an anonymous `bits:` with doc/attribute lines or an
+    inline type under them are affected, which no golden file contains."""
+    res = RuleResult("R-FMTPARTS")
+    m = repo.mod("compiler/front_end/format_emb.py")
+    n_blocks = 0
+    for f in m.funcs.values():
+        for c in walk_no_nested_funcs(f.node):
+            if not (isinstance(c, ast.Call) and (call_name(c) or "").split(".")[-1] == "_Block" and c.keywords):
+                continue
+            parts = {}
+            for k in c.keywords:
+                srcs = [x for x in ast.walk(k.value) if isinstance(x, ast.Attribute) and x.attr in ("prefix", "header", "body")
+                        and isinstance(x.value, ast.Name)]
+                if not srcs:
+                    continue
+                indented = any(isinstance(x, ast.Call) and (call_name(x) or "").startswith("_indent") for x in ast.walk(k.value))
+                parts[k.arg] = (indented, srcs[0].value.id, ast.unparse(k.value))
+            if len(parts) < 2:
+                continue
+            n_blocks += 1
+            res.instances += 1
+            if any(v[0] for v in parts.values()) and not all(v[0] for v in parts.values()):
+                plain = sorted(k for k, v in parts.items() if not v[0])
+                res.add(f"{m.rel}|{f.qualname}|{','.join(plain)}", f"{f.qualname} rebuilds a block with {sorted(k for k, v in parts.items() if v[0])} indented but "
+                        f"`{plain[0]}={parts[plain[0]][2]}` left as it was: rows under a nested field's header (docs, attributes, inline type "
+                        "bodies) come out at the header's own indentation and the formatted text does not parse back", m.rel, c.lineno, f.qualname)
+    if n_blocks < 1:
+        raise AnalysisError("format_emb: no _Block rebuilt from another block's parts")
+    res.analysed = [m.rel]
+    return res
